@@ -51,6 +51,18 @@ CHECKS = {
  "C14": ("exploration", "ordered-trace grammar checker (bracket grammar / counting with Hall condition) over in-process and CLI workloads; race detector",
          "1..8 tasks over 1..3 contexts started sequentially, from a goroutine barrier, as parallel stages and through the binary (one or two targets, succeeding and failing); hooks append tokens to one O_APPEND file.",
          "skipped tasks may have 0 or 1 before/after; `down` after a failed `up` is a don't-care", "DESIGN.md §4 C14"),
+ "C15": ("fault_enumeration", "malformed-shape enumeration (first-order tree mutants x 3 formats, truncations, hand-written shapes, env_file lines) observed at the process boundary: exit status / panic text / watchdog",
+         "every node of a base configuration covering all documented keys is replaced by 17 wrong-typed values, deleted or given unknown keys, in YAML, JSON and TOML; seeded higher-order mutants; truncation at every k-th byte; each file goes through list, validate and (when it loads) show, graph.",
+         "process boundary only; crash signature = top taskctl frame of the panic", "DESIGN.md §4 C15"),
+ "C16": ("exploration", "differential observation of the binary over three serialisations of one abstract configuration (emitters validated against the reference decoders per case)",
+         "abstract configurations from a grammar over every documented key are emitted as YAML, JSON and TOML; list, show, graph (edge set) and the trace + exit status of running every task and pipeline must agree pairwise.",
+         "emitters written in the harness; each generated case is first round-tripped through yaml.v2 / encoding/json / go-toml", "DESIGN.md §4 C16"),
+ "C17": ("exploration", "closure oracle (BFS in the checker) vs `taskctl list` over exhaustive small import graphs, broken-file injection, global/project splits",
+         "all import graphs on <=3 files x every root in nested directories, seeded graphs on 4..6 files with directory and repeated imports, each closure file made missing/broken/wrong-typed, all 16 splits of four definitions between global and project file.",
+         "bounded time (15 s) stands in for termination", "DESIGN.md §4 C17"),
+ "C18": ("exploration", "single-broken-reference mutants and repaired twins through list/validate; every pipeline of accepted configurations run under a watchdog",
+         "one broken reference of each kind at every position must be rejected, the twin accepted; pipelines of accepted configurations must end with exit 0/1 in bounded time.",
+         "`validate` accepts iff it prints `file is valid`", "DESIGN.md §4 C18"),
 }
 PENDING = {}
 
